@@ -81,11 +81,14 @@ enum { S_read, S_write, S_readv, S_writev, S_pread, S_pwrite, S_sendmsg, S_recvm
        S_accept4, S_connect, S_socket, S_socketpair, S_open, S_pipe2, S_epoll_create1, S_epoll_ctl,
        S_epoll_pwait, S_eventfd, S_inotify_init1, S_inotify_add_watch, S_fcntl, S_ioctl, S_dup2, S_dup3,
        S_waitpid, S_poll, S_nanosleep, S_fsync, S_fdatasync, S_ftruncate, S_close, S_fork, S_statx,
-       S_sendfile, S_preadv, S_pwritev, S_bind, S_listen, S_N };
+       S_sendfile, S_preadv, S_pwritev, S_bind, S_listen,
+       S_opendir, S_scandir, S_readlink, S_realpath, S_mkdtemp, S_mkstemp, S_rename, S_unlink, S_mkdir, S_rmdir, S_symlink,
+       S_access, S_N };
 static const char* const sname[S_N] = { "read", "write", "readv", "writev", "pread", "pwrite", "sendmsg", "recvmsg",
   "sendmmsg", "recvmmsg", "accept4", "connect", "socket", "socketpair", "open", "pipe2", "epoll_create1",
   "epoll_ctl", "epoll_pwait", "eventfd", "inotify_init1", "inotify_add_watch", "fcntl", "ioctl", "dup2", "dup3",
-  "waitpid", "poll", "nanosleep", "fsync", "fdatasync", "ftruncate", "close", "fork", "statx", "sendfile", "preadv", "pwritev", "bind", "listen" };
+  "waitpid", "poll", "nanosleep", "fsync", "fdatasync", "ftruncate", "close", "fork", "statx", "sendfile", "preadv", "pwritev", "bind", "listen",
+  "opendir", "scandir", "readlink", "realpath", "mkdtemp", "mkstemp", "rename", "unlink", "mkdir", "rmdir", "symlink", "access" };
 /* fd kinds: - none/unknown, s socket, p pipe, e eventfd, i inotify, f file, E epoll */
 static const char kinds[] = "-speifE";
 #define K_N 7
@@ -138,9 +141,11 @@ static int inject(int s, int fd) {
 static const struct { const char* n; int e; } errnos[] = { {"EINTR", EINTR}, {"EAGAIN", EAGAIN}, {"ENOBUFS", ENOBUFS},
   {"EMFILE", EMFILE}, {"ENFILE", ENFILE}, {"ENOMEM", ENOMEM}, {"EEXIST", EEXIST}, {"ENOSPC", ENOSPC}, {NULL, 0} };
 
+static int clobber_errno;
 static int parse_fault(const char* a) {
   char buf[128], *p, *q; unsigned lo, hi;
   snprintf(buf, sizeof buf, "%s", a);
+  if (!strcmp(buf, "clobber")) { clobber_errno = 1; return 0; }
   if (!strncmp(buf, "alloc:", 6)) {
     if (naflt >= MAXF) return -1;
     if (sscanf(buf + 6, "%u-%u", &lo, &hi) != 2) { if (sscanf(buf + 6, "%u", &lo) != 1) return -1; hi = lo; }
@@ -195,12 +200,17 @@ static int alloc_fails(void) {
     }
   return 0;
 }
-static void* c_malloc(size_t n) { void* p; if (alloc_fails()) { errno = ENOMEM; return NULL; } p = malloc(n ? n : 1); if (p) live_add(p, n); return p; }
-static void* c_calloc(size_t a, size_t b) { void* p; if (alloc_fails()) { errno = ENOMEM; return NULL; } p = calloc(a ? a : 1, b ? b : 1); if (p) live_add(p, a * b); return p; }
+/* schedule token `clobber`: every allocator entry point leaves a junk errno behind, as any legal application allocator
+ * installed with uv_replace_allocator may (it can make failing system calls of its own) */
+#define JUNK_ERRNO EXDEV
+#define CLOBBER() do { if (clobber_errno && atomic_load(&armed) && !quiet_depth) errno = JUNK_ERRNO; } while (0)
+static void* c_malloc(size_t n) { void* p; if (alloc_fails()) { errno = ENOMEM; return NULL; } p = malloc(n ? n : 1); if (p) live_add(p, n); CLOBBER(); return p; }
+static void* c_calloc(size_t a, size_t b) { void* p; if (alloc_fails()) { errno = ENOMEM; return NULL; } p = calloc(a ? a : 1, b ? b : 1); if (p) live_add(p, a * b); CLOBBER(); return p; }
 static void c_free(void* p) {
-  if (p == NULL) return;
+  if (p == NULL) { CLOBBER(); return; }
   if (!live_del(p)) { VIOL("invalid-free", "%s", "free of a block that is not live (double free or foreign pointer)"); return; }
   free(p);
+  CLOBBER();
 }
 static void* c_realloc(void* p, size_t n) {
   void* q;
@@ -210,6 +220,7 @@ static void* c_realloc(void* p, size_t n) {
   if (!live_del(p)) { VIOL("invalid-free", "%s", "realloc of a block that is not live"); return NULL; }
   q = realloc(p, n);
   live_add(q ? q : p, n);
+  CLOBBER();
   return q;
 }
 
@@ -298,6 +309,29 @@ int ftruncate(int fd, off_t n) { INJ(S_ftruncate, fd); return RAW(SYS_ftruncate,
 ssize_t preadv(int fd, const struct iovec* v, int n, off_t o) { INJ(S_preadv, fd); return RAW(SYS_preadv, fd, v, n, o, 0); }
 ssize_t pwritev(int fd, const struct iovec* v, int n, off_t o) { INJ(S_pwritev, fd); return RAW(SYS_pwritev, fd, v, n, o, 0); }
 ssize_t sendfile(int o, int i, off_t* off, size_t n) { INJ(S_sendfile, o); return RAW(SYS_sendfile, o, i, off, n); }
+
+/* libc-level entry points of the file API (their internal system calls cannot be interposed): fail the call itself */
+#define NEXT(name) dlsym(RTLD_NEXT, name)
+DIR* opendir(const char* path) { static DIR* (*f)(const char*); int e = inject(S_opendir, -1); if (e) { errno = e; return NULL; } if (!f) f = NEXT("opendir"); return f(path); }
+int scandir(const char* path, struct dirent*** out, int (*flt)(const struct dirent*), int (*cmp)(const struct dirent**, const struct dirent**)) {
+  static int (*f)(const char*, struct dirent***, int (*)(const struct dirent*), int (*)(const struct dirent**, const struct dirent**));
+  INJ(S_scandir, -1); if (!f) f = NEXT("scandir64"); return f(path, out, flt, cmp);
+}
+ssize_t readlink(const char* path, char* buf, size_t n) {
+  int e = inject(S_readlink, -1);
+  if (e == EINTR && !strncmp(path, "/proc/", 6)) e = 0;      /* procfs links never sleep interruptibly (same rule as open) */
+  if (e) { errno = e; return -1; }
+  return RAW(SYS_readlink, path, buf, n);
+}
+char* realpath(const char* path, char* out) { static char* (*f)(const char*, char*); int e = inject(S_realpath, -1); if (e) { errno = e; return NULL; } if (!f) f = NEXT("realpath"); return f(path, out); }
+char* mkdtemp(char* tpl) { static char* (*f)(char*); int e = inject(S_mkdtemp, -1); if (e) { errno = e; return NULL; } if (!f) f = NEXT("mkdtemp"); return f(tpl); }
+int mkstemp(char* tpl) { static int (*f)(char*); int r; INJ(S_mkstemp, -1); if (!f) f = NEXT("mkstemp64"); r = f(tpl); setkind(r, 'f'); return r; }
+int rename(const char* a, const char* b) { INJ(S_rename, -1); return RAW(SYS_rename, a, b); }
+int unlink(const char* a) { INJ(S_unlink, -1); return RAW(SYS_unlink, a); }
+int mkdir(const char* a, mode_t m) { INJ(S_mkdir, -1); return RAW(SYS_mkdir, a, m); }
+int rmdir(const char* a) { INJ(S_rmdir, -1); return RAW(SYS_rmdir, a); }
+int symlink(const char* a, const char* b) { INJ(S_symlink, -1); return RAW(SYS_symlink, a, b); }
+int access(const char* a, int m) { INJ(S_access, -1); return RAW(SYS_access, a, m); }
 
 static pid_t (*real_fork)(void);
 pid_t fork(void) {
@@ -443,6 +477,8 @@ static void epilogue(void) {
   if (loop_inited) {
     /* load-shedding invariant: the spare descriptor is back after an EMFILE episode (unless reopening it was
      * itself the injected failure) */
+    if (loop->emfile_fd != -1 && RAW(SYS_fcntl, loop->emfile_fd, F_GETFD) < 0)
+      VIOL("spare-fd-garbage", "loop->emfile_fd=%d is neither -1 nor an open descriptor", loop->emfile_fd);
     if (spare_expected && !atomic_load(&fired_open)) {
       int ok = loop->emfile_fd >= 0 && RAW(SYS_fcntl, loop->emfile_fd, F_GETFD) >= 0;
       OUT("final spare-fd %d", ok);
@@ -716,9 +752,9 @@ out:
 }
 
 /* ================================================================== scenario: fs (sync and async) */
-static struct { int async, step, fd; char dir[300], f1[320], f2[320], rbuf[64]; uv_fs_t* req; } fsx;
+static struct { int async, step, fd; char dir[300], f1[320], f2[320], lnk[320], tmpf[340], rbuf[64]; uv_fs_t* req; uv_dir_t* dirp; uv_dirent_t dents[4]; } fsx;
 static void fs_next(uv_fs_t* req);
-static const int fs_prog[] = { 0, 1, 2, 3, 4, 5, 6, 18, 19, 7, 8, 9, 10, 11, 12, 13, 14, 15, 16, 17, -1 };
+static const int fs_prog[] = { 0, 1, 2, 3, 4, 5, 6, 18, 19, 7, 8, 9, 10, 11, 20, 21, 28, 22, 23, 24, 25, 26, 27, 12, 13, 14, 15, 16, 17, -1 };
 #define FS_OP (fs_prog[fsx.step])
 static void fs_cb(uv_fs_t* req) { got[Q_fs]++; fs_next(req); }
 /* issue step fsx.step; returns <0 when the submission itself failed */
@@ -747,24 +783,40 @@ static int fs_issue(uv_fs_t* rq) {
     case 15: r = uv_fs_unlink(loop, rq, fsx.f1, cb); break;
     case 16: r = uv_fs_unlink(loop, rq, fsx.f2, cb); break;
     case 17: r = uv_fs_rmdir(loop, rq, fsx.dir, cb); break;
+    case 20: r = uv_fs_symlink(loop, rq, fsx.f1, fsx.lnk, 0, cb); break;
+    case 21: r = uv_fs_readlink(loop, rq, fsx.lnk, cb); break;
+    case 28: r = uv_fs_lstat(loop, rq, fsx.lnk, cb); break;
+    case 22: r = uv_fs_opendir(loop, rq, fsx.dir, cb); break;
+    case 23: if (fsx.dirp == NULL) return 1; fsx.dirp->dirents = fsx.dents; fsx.dirp->nentries = 4; r = uv_fs_readdir(loop, rq, fsx.dirp, cb); break;
+    case 24: if (fsx.dirp == NULL) return 1; r = uv_fs_closedir(loop, rq, fsx.dirp, cb); break;
+    case 25: { char tpl[340]; snprintf(tpl, sizeof tpl, "%s/tXXXXXX", fsx.dir); r = uv_fs_mkstemp(loop, rq, tpl, cb); break; }
+    case 26: if (strncmp(fsx.tmpf, fsx.dir, strlen(fsx.dir))) return 1; r = uv_fs_unlink(loop, rq, fsx.tmpf, cb); break;
+    case 27: r = uv_fs_unlink(loop, rq, fsx.lnk, cb); break;
     default: return 1;
   }
   return r > 0 ? 0 : r;
 }
 static const char* const fs_names[] = { "mkdtemp", "open", "write", "pwrite", "fsync", "fstat", "read", "ftruncate", "close", "stat",
-  "rename", "copyfile", "scandir", "realpath", "access", "unlink", "unlink2", "rmdir", "pread", "pwritev" };
+  "rename", "copyfile", "scandir", "realpath", "access", "unlink", "unlink2", "rmdir", "pread", "pwritev",
+  "symlink", "readlink", "opendir", "readdir", "closedir", "mkstemp", "unlink3", "unlink4", "lstat" };
 /* consume the result of step fsx.step; returns nonzero to stop */
 static int fs_result(uv_fs_t* rq) {
   char nm[48]; long res = (long) rq->result;
   snprintf(nm, sizeof nm, "fs_%s%s", fs_names[FS_OP], fsx.async ? "_cb" : "");
   if (A_(nm, (int) res, 0) < 0) return 1;
   switch (FS_OP) {
-    case 0: snprintf(fsx.dir, sizeof fsx.dir, "%s", rq->path); snprintf(fsx.f1, sizeof fsx.f1, "%s/one", fsx.dir); snprintf(fsx.f2, sizeof fsx.f2, "%s/two", fsx.dir); OUT("T fs mkdtemp ok"); break;
+    case 0: snprintf(fsx.dir, sizeof fsx.dir, "%s", rq->path); snprintf(fsx.f1, sizeof fsx.f1, "%s/one", fsx.dir); snprintf(fsx.f2, sizeof fsx.f2, "%s/two", fsx.dir); snprintf(fsx.lnk, sizeof fsx.lnk, "%s/lnk", fsx.dir); OUT("T fs mkdtemp ok"); break;
     case 1: fsx.fd = (int) res; OUT("T fs open ok"); break;
     case 5: case 9: OUT("T fs %s size=%lu", fs_names[FS_OP], (unsigned long) rq->statbuf.st_size); break;
     case 6: case 18: OUT("T fs %s %ld [%s]", fs_names[FS_OP], res, fsx.rbuf); break;
     case 12: { uv_dirent_t e; while (uv_fs_scandir_next(rq, &e) == 0) OUT("T fs scandir %s %d", e.name, (int) e.type); break; }
     case 13: OUT("T fs realpath ok=%d", rq->ptr != NULL && strstr((char*) rq->ptr, "/one") != NULL); break;
+    case 21: OUT("T fs readlink ok=%d", rq->ptr != NULL && !strcmp((char*) rq->ptr, fsx.f1)); break;
+    case 28: OUT("T fs lstat link=%d", (int) ((rq->statbuf.st_mode & S_IFMT) == S_IFLNK)); break;
+    case 22: fsx.dirp = (uv_dir_t*) rq->ptr; OUT("T fs opendir ok=%d", fsx.dirp != NULL); break;
+    case 23: { int i; OUT("T fs readdir n=%ld", res); for (i = 0; i < (int) res && i < 4; i++) OUT("T fs dirent %s", fsx.dents[i].name); break; }
+    case 24: fsx.dirp = NULL; OUT("T fs closedir %ld", res); break;
+    case 25: snprintf(fsx.tmpf, sizeof fsx.tmpf, "%s", rq->path); RAW(SYS_close, (int) res); OUT("T fs mkstemp ok=%d", !strncmp(fsx.tmpf, fsx.dir, strlen(fsx.dir))); break;
     default: OUT("T fs %s %ld", fs_names[FS_OP], res);
   }
   return 0;
@@ -791,8 +843,14 @@ static void fs_next(uv_fs_t* done) {
     done = rq;
   }
 }
-static void sc_fs_sync(void) { fsx.async = 0; fsx.fd = -1; fs_next(NULL); }
-static void sc_fs_async(void) { fsx.async = 1; fsx.fd = -1; fs_next(NULL); uv_run(loop, UV_RUN_DEFAULT); }
+static void fs_drop_dir(void) {      /* a directory stream still open after a bail-out: release it without faults */
+  uv_fs_t rq;
+  if (fsx.dirp == NULL) return;
+  quiet_depth++; uv_fs_closedir(NULL, &rq, fsx.dirp, NULL); uv_fs_req_cleanup(&rq); quiet_depth--;
+  fsx.dirp = NULL;
+}
+static void sc_fs_sync(void) { fsx.async = 0; fsx.fd = -1; fs_next(NULL); fs_drop_dir(); }
+static void sc_fs_async(void) { fsx.async = 1; fsx.fd = -1; fs_next(NULL); uv_run(loop, UV_RUN_DEFAULT); fs_drop_dir(); }
 
 /* ================================================================== scenario: getaddrinfo / getnameinfo */
 static void gni_cb(uv_getnameinfo_t* r, int status, const char* host, const char* svc) {
